@@ -97,15 +97,203 @@ const (
 	fuel        = 200000
 )
 
-func vname(x int) string { return "@v" + strconv.Itoa(x) }
+// spelling: how the pool slots of ONE program are written in its text (nil: the plain names @v0 … fn0 … ag0 … t0 …
+// cr0 …).  What is one object is NOT decided here: the raw texts go to the model (name table of the c15.runk ops),
+// which applies the key function of each kind.
+type spelling struct {
+	v, f, ag, t, c []string
+	stmtTwin       bool // EXECUTE of a prepared statement spells its name differently from PREPARE
+}
+
+var spell *spelling
+
+// the stems the twins are made of: letter-case twins, Unicode case twins (dotless i: ToUpper(ı) = I, so one object
+// with ki under an upper-casing key and a different one under a lower-casing key; Kelvin sign: ToLower(K) = k, its
+// own upper case), near twins (kj)
+var asciiStems = []string{"ki", "KI", "Ki", "kI", "kj", "KJ"}
+var unicodeStems = []string{"ki", "KI", "Ki", "k\u0131", "\u212ai", "\u212a\u0131", "kj", "KJ"}
+
+func newSpelling(g *hc.Gen) *spelling {
+	switch g.Intn(20) {
+	case 0, 1, 2, 3, 4, 5, 6, 7, 8, 9, 10:
+		return nil
+	case 11, 12: // the plain pools with letter-case twins of themselves
+		return &spelling{v: []string{"@v0", "@V0", "@v1", "@V1"}, f: []string{"fn0", "FN0", "fn1", "Fn1"}, ag: []string{"ag0", "AG0"},
+			t: []string{"t0", "T0"}, c: []string{"cr0", "CR0"}, stmtTwin: true}
+	}
+	stems := asciiStems
+	if g.Intn(3) > 0 {
+		stems = unicodeStems
+	}
+	draw := func(prefix string, n int) []string {
+		perm := g.Perm(len(stems))
+		out := make([]string, 0, n)
+		for _, k := range perm {
+			// temporary tables are not spelled with ı here: the programs DELETE from them, and DELETE / UPDATE on a table
+			// whose name contains ı match no record (findings_inbox/dotless-i-table-dml; the law lawTwins covers
+			// DECLARE / INSERT / SELECT / DISPOSE of such a table)
+			if prefix == "t" && strings.Contains(stems[k], "\u0131") {
+				continue
+			}
+			if len(out) < n {
+				out = append(out, prefix+stems[k])
+			}
+		}
+		return out
+	}
+	sp := &spelling{v: draw("@", poolVars), f: draw("f", poolFns), ag: draw("g", poolAggs), t: draw("t", poolTables), c: draw("c", poolCursors),
+		stmtTwin: g.Intn(2) == 0}
+	// now and then only some kinds are respelled
+	if g.Intn(4) == 0 {
+		switch g.Intn(4) {
+		case 0:
+			sp.v = nil
+		case 1:
+			sp.f, sp.ag = nil, nil
+		case 2:
+			sp.t = nil
+		default:
+			sp.c = nil
+		}
+	}
+	return sp
+}
+
+func spelled(l []string, i int, plain string) string {
+	if spell != nil && i >= 0 && i < len(l) {
+		return l[i]
+	}
+	return plain
+}
+
+func vname(x int) string {
+	if spell == nil {
+		return "@v" + strconv.Itoa(x)
+	}
+	return spelled(spell.v, x, "@v"+strconv.Itoa(x))
+}
 func fname(f int) string {
 	if f >= aggBase { // user-defined aggregates: their own names, the same map of functions
+		if spell != nil {
+			return spelled(spell.ag, f-aggBase, "ag"+strconv.Itoa(f-aggBase))
+		}
 		return "ag" + strconv.Itoa(f-aggBase)
+	}
+	if spell != nil {
+		return spelled(spell.f, f, "fn"+strconv.Itoa(f))
 	}
 	return "fn" + strconv.Itoa(f)
 }
-func tname(t int) string { return "t" + strconv.Itoa(t) }
-func cname(c int) string { return "cr" + strconv.Itoa(c) }
+func tname(t int) string {
+	if spell != nil {
+		return spelled(spell.t, t, "t"+strconv.Itoa(t))
+	}
+	return "t" + strconv.Itoa(t)
+}
+func cname(c int) string {
+	if spell != nil {
+		return spelled(spell.c, c, "cr"+strconv.Itoa(c))
+	}
+	return "cr" + strconv.Itoa(c)
+}
+
+// nameEnt: one raw name of a program — kind v (variable) t (temporary table) c (cursor) f (function), the number the
+// model encoding uses for it, its text
+type nameEnt struct {
+	kind byte
+	num  int
+	raw  string
+}
+
+// nameTable lists every number the program mentions, with the text it is written as (under the current spelling)
+func nameTable(prog []*Stmt) []nameEnt {
+	vs, fs := map[int]nameEnt{}, map[int]nameEnt{}
+	addV := func(x int) { vs[x] = nameEnt{'v', x, strings.TrimPrefix(vname(x), "@")} } // parser.Variable.Name: the text after the sign
+	addT := func(x int) { vs[tableVar+x] = nameEnt{'t', tableVar + x, tname(x)} }
+	addC := func(x int) { vs[cursorVar+x] = nameEnt{'c', cursorVar + x, cname(x)} }
+	addF := func(x int) { fs[x] = nameEnt{'f', x, fname(x)} }
+	var ex func(e *Expr)
+	ex = func(e *Expr) {
+		if e == nil {
+			return
+		}
+		switch e.K {
+		case 'v':
+			addV(e.X)
+		case 'T':
+			addT(e.X)
+		case 'c', 'a':
+			addF(e.X)
+		}
+		ex(e.A)
+		ex(e.B)
+		for _, a := range e.Args {
+			ex(a)
+		}
+	}
+	var st func(ss []*Stmt)
+	st = func(ss []*Stmt) {
+		for _, s := range ss {
+			switch s.K {
+			case 'D', 'A', 'X', 'E':
+				addV(s.X)
+			case 'H':
+				addV(s.X)
+				addC(s.Cur)
+			case 'C', 'O', 'S':
+				addC(s.Cur)
+			case 'V', 'N', 'L', 'U':
+				addT(s.X)
+			case 'F', 'Y':
+				addF(s.X)
+			case 'G':
+				addF(s.X)
+				addC(s.Cur)
+			}
+			ex(s.E)
+			for _, p := range s.Params {
+				addV(p.X)
+				ex(p.Dflt)
+			}
+			for _, br := range s.Branches {
+				ex(br.C)
+				st(br.Body)
+			}
+			st(s.Els)
+			st(s.Body)
+		}
+	}
+	st(prog)
+	var out []nameEnt
+	for _, k := range sortedKeysEnt(vs) {
+		out = append(out, vs[k])
+	}
+	for _, k := range sortedKeysEnt(fs) {
+		out = append(out, fs[k])
+	}
+	return out
+}
+
+func sortedKeysEnt(m map[int]nameEnt) []int {
+	ks := make([]int, 0, len(m))
+	for k := range m {
+		ks = append(ks, k)
+	}
+	sort.Ints(ks)
+	return ks
+}
+
+func encNames(tbl []nameEnt) string {
+	var b strings.Builder
+	fmt.Fprintf(&b, "%d", len(tbl))
+	for _, e := range tbl {
+		fmt.Fprintf(&b, " %c%d:%x", e.kind, e.num, e.raw)
+	}
+	return b.String()
+}
+
+// curTable: the names the final state is reported for (nil: every object the blocks hold, by its stored key)
+var curTable []nameEnt
 
 // ---- model encoding
 
@@ -406,8 +594,13 @@ func (s *Stmt) sql(b *strings.Builder) {
 			b.WriteString("EXECUTE " + option.QuoteString(ib.String()) + ";")
 		default:
 			name := fmt.Sprintf("pq%d", render.seq)
+			exe := name
+			if spell != nil && spell.stmtTwin { // a prepared statement is found under any spelling with the same upper case
+				name = fmt.Sprintf("pqi%d", render.seq)
+				exe = []string{"PQI", "pq\u0131", "Pqi"}[render.seq%3] + strconv.Itoa(render.seq)
+			}
 			render.prep = append(render.prep, "PREPARE "+name+" FROM "+option.QuoteString(ib.String())+";")
-			b.WriteString("EXECUTE " + name + ";")
+			b.WriteString("EXECUTE " + exe + ";")
 		}
 	case 'E': // three statements: the cursor is declared and opened in the enclosing block, right in front of the loop
 		fmt.Fprintf(b, "DECLARE cq%d CURSOR FOR SELECT c1 FROM tq WHERE c1 < %d ORDER BY c1; OPEN cq%d; WHILE ", s.Cur, s.Rows, s.Cur)
@@ -1175,7 +1368,51 @@ func joinOr(l []string, d string) string {
 	return strings.Join(l, ",")
 }
 
+// scopeStateNamed: per block, every listed name that finds an object there — asked through csvq's own lookups
+// (VariableMap.Load, CursorMap.Load, UserDefinedFunctionMap.Load with the raw text; ReferenceScope.GetTemporaryTable
+// on a scope of that one block), so what is one object is csvq's decision; an object two listed names reach is
+// reported under both
+func scopeStateNamed(rs *query.ReferenceScope, tbl []nameEnt) (string, string) {
+	var vs, fs []string
+	for i := range rs.Blocks {
+		b := rs.Blocks[i]
+		one := &query.ReferenceScope{Tx: rs.Tx, Blocks: rs.Blocks[i : i+1]}
+		var vl, fl []string
+		for _, e := range tbl {
+			switch e.kind {
+			case 'v':
+				if val, ok := b.Variables.Load(e.raw); ok {
+					vl = append(vl, fmt.Sprintf("%d=%s", e.num, canonVal(val)))
+				}
+			case 't':
+				if view, err := one.GetTemporaryTable(parser.Identifier{Literal: e.raw}); err == nil {
+					vl = append(vl, fmt.Sprintf("%d=I%d", e.num, view.RecordLen()))
+				}
+			case 'c':
+				if cur, ok := b.Cursors.Load(e.raw); ok {
+					st := "C"
+					if cur.IsOpen() == ternary.TRUE {
+						ptr, _ := cur.Pointer()
+						st = fmt.Sprintf("O%d", ptr+1)
+					}
+					vl = append(vl, fmt.Sprintf("%d=%s", e.num, st))
+				}
+			case 'f':
+				if fn, ok := b.Functions.Load(e.raw); ok {
+					fl = append(fl, fmt.Sprintf("%d:%d", e.num, len(fn.Parameters)))
+				}
+			}
+		}
+		vs = append(vs, joinOr(vl, "-"))
+		fs = append(fs, joinOr(fl, "-"))
+	}
+	return strings.Join(vs, "/"), strings.Join(fs, "/")
+}
+
 func scopeState(rs *query.ReferenceScope) (string, string) {
+	if curTable != nil {
+		return scopeStateNamed(rs, curTable)
+	}
 	var vs, fs []string
 	for _, b := range rs.Blocks {
 		type kv struct {
@@ -1515,6 +1752,84 @@ type lawCase struct {
 	SQL  []string `json:"sql"`
 	Got  string   `json:"got"`
 	Want string   `json:"want"`
+}
+
+// lawTwins (implementation alone): what counts as the same name.  Variables that differ in letter case (or by a
+// Unicode case twin) are different variables — a block-local twin neither shadows the outer one nor takes the
+// assignment meant for it, a parameter twin does not hide the caller's variable, both can be declared in one block;
+// cursors, functions, temporary tables and prepared statements are found under every spelling with the same upper
+// case (ci / CI / cı) and not under one with a different upper case (the Kelvin sign, a near twin).
+func lawTwins(g *hc.Gen, o *hc.Out) {
+	id := 0
+	depth := 1 + g.Intn(maxDepth)
+	pairs := [][2]string{{"zk", "Zk"}, {"zk", "ZK"}, {"zk", "z\u212a"}, {"zi", "z\u0131"}, {"zi", "zI"}, {"total", "Total"}, {"n", "N"}}
+	pq := pairs[g.Intn(len(pairs))]
+	a, b := "@"+pq[0], "@"+pq[1]
+	if g.Intn(2) == 0 {
+		a, b = b, a
+	}
+	type tc struct {
+		name, first, body, last, want string
+	}
+	same := []string{"zi", "ZI", "Zi", "z\u0131"} // one upper case: ZI
+	other := []string{"z\u212a", "zj", "zii"}     // with k for i: Kelvin sign is its own upper case, so zK ≠ ZK
+	s0 := same[g.Intn(len(same))]
+	s1 := same[g.Intn(len(same))]
+	s2 := same[g.Intn(len(same))]
+	a0, a1, a2 := same[g.Intn(3)], same[g.Intn(3)], same[g.Intn(3)]
+	k0 := []string{"zk", "ZK", "zK"}[g.Intn(3)]
+	ot := other[g.Intn(len(other))]
+	if ot != "z\u212a" {
+		k0 = s0
+	}
+	cases := []tc{
+		{"variable_block", "VAR " + a + " := 1;", "VAR " + b + " := 50; " + a + " := (" + a + " + 1); PRINT " + b + ";", "PRINT " + a + ";", "I50,I2"},
+		{"variable_param", "VAR " + a + " := 0; DECLARE fzt FUNCTION (" + b + ") AS BEGIN " + a + " := (" + a + " + 1); RETURN (" + b + " + " + b + "); END;",
+			"PRINT fzt(7);", "PRINT " + a + ";", "I14,I1"},
+		{"variable_same_block", "VAR @q;", "VAR " + a + " := 1; VAR " + b + " := 2; PRINT (" + a + " + " + b + "); DISPOSE " + a + "; PRINT " + b + ";", "PRINT 0;", "I3,I2,I0"},
+		{"cursor", "VAR @r; DECLARE c" + s0 + " CURSOR FOR SELECT 1 UNION ALL SELECT 2;", "OPEN c" + s1 + "; FETCH c" + s2 + " INTO @r; PRINT @r;",
+			"FETCH c" + s0 + " INTO @r; PRINT @r; DISPOSE CURSOR c" + s1 + ";", "I1,I2"},
+		{"function", "DECLARE f" + s0 + " FUNCTION (@x) AS BEGIN RETURN (@x + 1); END;", "PRINT f" + s1 + "(1);", "PRINT f" + s2 + "(2); DISPOSE FUNCTION f" + s1 + ";", "I2,I3"},
+		// DELETE / UPDATE only with ASCII spellings: on a table declared or addressed with ı they match no record
+		// (findings_inbox/dotless-i-table-dml); DECLARE / INSERT / SELECT / DISPOSE are checked with every spelling
+		{"table", "VAR @r; DECLARE t" + a0 + " VIEW (c1);", "INSERT INTO t" + a1 + " VALUES (1), (2); SELECT COUNT(*) INTO @r FROM t" + a2 + "; PRINT @r;",
+			"DELETE FROM t" + a2 + "; SELECT COUNT(*) INTO @r FROM t" + a0 + "; PRINT @r; DISPOSE VIEW t" + a1 + ";", "I2,I0"},
+		{"table_unicode", "VAR @r; DECLARE t" + s0 + " VIEW (c1);", "INSERT INTO t" + s1 + " VALUES (1), (2); SELECT COUNT(*) INTO @r FROM t" + s2 + "; PRINT @r;",
+			"DISPOSE VIEW t" + s1 + "; DECLARE t" + s2 + " VIEW (c1); SELECT COUNT(*) INTO @r FROM t" + s0 + "; PRINT @r;", "I2,I0"},
+		{"statement", "PREPARE p" + s0 + " FROM 'PRINT 5;';", "EXECUTE p" + s1 + ";", "EXECUTE p" + s2 + "; DISPOSE PREPARE p" + s1 + ";", "I5,I5"},
+	}
+	c := cases[g.Intn(len(cases))]
+	pr := newProc()
+	body, kinds := wrap(g, indirect(g, o, c.body, &id), depth, &id)
+	r := exec(pr, c.first+" "+body+" "+c.last)
+	o.Count("law:twins_" + c.name)
+	o.Count("law_wrap_innermost:" + kinds[0])
+	if got := strings.Join(r.out, ","); r.code != 0 || got != c.want {
+		report(o, "same_name_iff_same_key_"+c.name, lawCase{"same_name_iff_same_key_" + c.name, []string{c.first + " " + body + " " + c.last},
+			fmt.Sprintf("%s %s", r.flow, got), "N " + c.want})
+	}
+	pr.Close()
+	// a name with a different upper case does not reach the object
+	type neg struct {
+		name, sql string
+		want      int
+	}
+	negs := []neg{
+		{"cursor", "DECLARE c" + k0 + " CURSOR FOR SELECT 1; OPEN c" + ot + ";", query.ErrorUndeclaredCursor},
+		{"function", "DECLARE f" + k0 + " FUNCTION () AS BEGIN RETURN 1; END; PRINT f" + ot + "();", query.ErrorFunctionNotExist},
+		{"table", "DECLARE t" + k0 + " VIEW (c1); DISPOSE VIEW t" + ot + ";", query.ErrorUndeclaredTemporaryTable},
+		{"statement", "PREPARE p" + k0 + " FROM 'PRINT 5;'; EXECUTE p" + ot + ";", query.ErrorStatementNotExist},
+		{"variable", "VAR " + a + " := 1; PRINT " + b + ";", query.ErrorUndeclaredVariable},
+	}
+	ng := negs[g.Intn(len(negs))]
+	pr = newProc()
+	body, _ = wrap(g, ng.sql, 1+g.Intn(2), &id)
+	r = exec(pr, body)
+	o.Count("law:twins_other_" + ng.name)
+	if r.code != ng.want {
+		report(o, "different_key_different_"+ng.name, lawCase{"different_key_different_" + ng.name, []string{body}, r.flow, fmt.Sprintf("E%d", ng.want)})
+	}
+	pr.Close()
 }
 
 func lawsObjects(g *hc.Gen, o *hc.Out) {
@@ -2151,6 +2466,13 @@ func runC15(seed int64, n int, dir string, _ []string) {
 	for i := 0; i < n; i++ {
 		wild := i%5 == 4
 		pg, prog := genProgram(g, false, wild)
+		// how this program spells its names; the final state is asked for every name it mentions
+		spell = newSpelling(g)
+		curTable = nameTable(prog)
+		names := encNames(curTable)
+		if spell != nil {
+			o.Count("twin_spelling")
+		}
 		sql := sqlProgram(prog)
 		pp, npp := preps()
 		// the transaction outcome is watched (a file table is changed in front of the program) for every program
@@ -2177,6 +2499,7 @@ func runC15(seed int64, n int, dir string, _ []string) {
 		}
 		if r.fatal {
 			report(o, "generator_syntax", lawCase{"generator_syntax", []string{full}, r.flow, "parses"})
+			spell, curTable = nil, nil
 			continue
 		}
 		committed := watch.outcome(shared) // before anything else runs in this session: a normal end would commit
@@ -2185,13 +2508,14 @@ func runC15(seed int64, n int, dir string, _ []string) {
 		lawPool(o, shared.P.ReferenceScope, 48, full)
 		if r.code == query.ErrorContextDone || r.code == query.ErrorContextCanceled {
 			o.Count("skipped_timeout")
+			spell, curTable = nil, nil
 			continue
 		}
 		if watched {
-			o.Case("c15.runtx "+strconv.Itoa(fuel)+" "+encProgram(prog), r.line()+" | "+committed)
+			o.Case("c15.runktx "+strconv.Itoa(fuel)+" "+names+" "+encProgram(prog), r.line()+" | "+committed)
 			o.Count("tx:" + committed + "_after_" + r.flow[:1])
 		} else {
-			o.Case("c15.run "+strconv.Itoa(fuel)+" "+encProgram(prog), r.line())
+			o.Case("c15.runk "+strconv.Itoa(fuel)+" "+names+" "+encProgram(prog), r.line())
 		}
 		if r.nblk != 1 {
 			report(o, "block_stack_balanced", lawCase{"block_stack_balanced", []string{sql}, strconv.Itoa(r.nblk), "1"})
@@ -2223,11 +2547,13 @@ func runC15(seed int64, n int, dir string, _ []string) {
 		}
 
 		if wild {
+			spell, curTable = nil, nil
 			continue
 		}
 		if i%4 == 0 {
-			lawLateDecl(g, o, shared, prog, r)
+			lawLateDecl(g, o, shared, prog, r) // the same program once more: same spelling, same names reported
 		}
+		spell, curTable = nil, nil
 		if i%4 == 1 {
 			lawShadowRandom(g, o, shared)
 		}
@@ -2239,6 +2565,9 @@ func runC15(seed int64, n int, dir string, _ []string) {
 		}
 		if i%16 == 14 {
 			lawAggregateCursor(g, o)
+		}
+		if i%16 == 10 {
+			lawTwins(g, o)
 		}
 		if i%4000 == 1999 {
 			lawConcurrentOwnArgs(g, o)
